@@ -15,6 +15,9 @@ pub assume_specification[ <std::path::PathBuf as Clone>::clone ](p: &std::path::
 
 //@item file=src/lib.rs kind=struct name=Position
 //@item file=src/blocks.rs kind=struct name=Block
+// /repo derives `Clone, Copy, Serialize_repr, EnumString, Debug, PartialEq`; `Structural` is Verus' marker that the
+// derived `PartialEq` of this field-less enum is structural equality, so `==` on it means spec equality.
+#[derive(PartialEq, Structural)]
 //@item file=src/blocks.rs kind=enum name=BlockSeverity
 //@item file=src/blocks.rs kind=struct name=FileBlocks
 //@item file=src/blocks.rs kind=struct name=BlockWithContext
